@@ -33,7 +33,8 @@ func (c10) Meta() fw.Meta {
 			"oracle: per archive the series has the C04 shape of that archive and at every slot the sum of the files' fetched values that are not NaN (NaN iff none); a single file sums bit-exactly to its own fetch; a file with another layout => error for every window and archive selection (also narrow windows in which all files yield the same shape); file patterns with a directory component sum exactly the matched files; item or file pattern matching nothing => an error with os.IsNotExist (function) / exit 2 (CLI). " +
 			"non-trivial = item with >= 3 files in which some slot had exactly one contributor and some slot none; distinct by tree + clock." +
 			" Every 4th case sums through the delayed single-threaded server with concurrent clients, incl. an item of 2500-4500-point archives; every 3rd case runs eight sums that fail (archive id no file has) and then the valid sum again under a 90 s watchdog." +
-			" Trees contain a symlinked source file, a symlinked item directory (every 2nd tree) and the item grpF (values 1, 1e17, -1e17 in name order) which is also summed while its first file is locked; every remote stage runs two sums of one item in flight at once that differ only in their clock.",
+			" Trees contain a symlinked source file, a symlinked item directory (every 2nd tree) and the item grpF (values 1, 1e17, -1e17 in name order) which is also summed while its first file is locked; every remote stage runs two sums of one item in flight at once that differ only in their clock." +
+			" One item holds files of equal archives but different method/xFilesFactor; files of one item fetched with different shapes are reported as such.",
 		Assumptions: []string{
 			"values are chosen so that floating-point addition is exact: the property is about WHICH values are added, not about association order",
 			"directory names contain no dots (items are dotted paths)",
